@@ -204,21 +204,21 @@ func classify(pats []string, q rt.Req, host string, want ref.Result) {
 
 func genCase(t *rapid.T) *Case {
 	c := &Case{}
-	c.G.TS = rapid.SampledFrom([]int{rt.TSNone, rt.TSNone, rt.TSIgnore, rt.TSRedirect}).Draw(t, "globalTS")
-	n := rapid.IntRange(1, 8).Draw(t, "nroutes")
+	c.G.TS = gen.Pick(t, []int{rt.TSNone, rt.TSNone, rt.TSIgnore, rt.TSRedirect}, "globalTS")
+	n := gen.IntR(t, 1, 8, "nroutes")
 	var pool []string
 	for i := 0; i < n; i++ {
 		p := gen.Pattern(t, pool, 1, false)
 		pool = append(pool, p)
-		m := rapid.SampledFrom([]string{"GET", "GET", "GET", "POST"}).Draw(t, "method")
+		m := gen.Pick(t, []string{"GET", "GET", "GET", "POST"}, "method")
 		c.Routes = append(c.Routes, rt.RouteSpec{Method: m, Pattern: p})
 	}
-	nreq := rapid.IntRange(1, 6).Draw(t, "nreq")
+	nreq := gen.IntR(t, 1, 6, "nreq")
 	for i := 0; i < nreq; i++ {
-		src := rapid.SampledFrom(c.Routes).Draw(t, "src")
+		src := gen.Pick(t, c.Routes, "src")
 		hsrc := src
-		if rapid.IntRange(0, 2).Draw(t, "mixhost") == 0 {
-			hsrc = rapid.SampledFrom(c.Routes).Draw(t, "hsrc")
+		if gen.IntR(t, 0, 2, "mixhost") == 0 {
+			hsrc = gen.Pick(t, c.Routes, "hsrc")
 		}
 		if !ref.ValidPattern(src.Pattern, 1<<16, 1<<16) || !ref.ValidPattern(hsrc.Pattern, 1<<16, 1<<16) {
 			continue
@@ -228,10 +228,10 @@ func genCase(t *rapid.T) *Case {
 		if rapid.Bool().Draw(t, "mutpath") {
 			path = gen.MutatePath(t, path)
 		}
-		if rapid.IntRange(0, 3).Draw(t, "muthost") != 0 {
+		if gen.IntR(t, 0, 3, "muthost") != 0 {
 			host = gen.MutateHost(t, host)
 		}
-		if rapid.IntRange(0, 15).Draw(t, "dots") == 0 && host != "" && !strings.Contains(host, ":") {
+		if gen.IntR(t, 0, 15, "dots") == 0 && host != "" && !strings.Contains(host, ":") {
 			host += ".."
 		}
 		if strings.Contains(path, "//") {
